@@ -10,6 +10,8 @@
 -/
 import RdestModel.Props.C12
 import RdestModel.Lemmas.Loop
+import RdestModel.Lemmas.NoCancel
+import RdestModel.Props.C01
 set_option linter.unusedSimpArgs false
 set_option linter.unusedVariables false
 namespace Rdest.Props.C12
@@ -147,6 +149,60 @@ theorem T8_whole_client_no_stale_reservation (T : Torrent) (sha1 : Bytes → Byt
   obtain ⟨a, ha⟩ := T7_whole_client_reserved_piece_is_being_fetched T sha1 S h i n hs
   exact hnone a ha
 
+/-- The manager event a command of connection `a` becomes (`handle_peer_cmd`), for a given outcome of the random piece
+    choice and, for a bitfield, the decoded bit vector. `Init` and `RecvRequest` do not touch the piece bookkeeping. -/
+def evOfCmd (a : Nat) (chosen : Option Nat) (bits : Pieces) : Cmd → Option Ev
+  | .recvChoke => some (.choke a)
+  | .recvUnchoke => some (.unchoke a chosen)
+  | .recvInterested => some (.interested a)
+  | .recvNotInterested => some (.notInterested a chosen)
+  | .recvHave i => some (.have a i chosen)
+  | .recvBitfield _ => some (.bitfield a bits chosen)
+  | .pieceDone => some (.pieceDone a chosen)
+  | .pieceCancel => some (.pieceCancel a chosen)
+  | _ => none
+
+/-- **T9 (whole client, "no sequence of peer events makes the manager panic"), partial.** In every reachable state of
+    the whole client, whatever command a live connection task sends while handling any input, the manager handles it
+    without panicking, for every outcome of the random piece choice: the record it looks up exists, and `PieceDone` /
+    `PieceCancel` find an assigned piece ("Piece downloaded / cancelled but not requested" cannot happen) — derived from
+    the tasks' behaviour (`T6_piece_done_only_while_assigned`, `pieceCancel_has_rx`, `allLinked_reach`), not assumed as
+    in `T5_no_panic`. *Partial*: for `RecvHave` the index bound and for `RecvBitfield` the length of the decoded vector
+    against the record's bit vector are premises here (`hlen`): the task validates both against its own `pieces_num`
+    (`onHave`, `onBitfield`), and that the task's `pieces_num` is the length of the manager's vectors is a fact about
+    `Session::new` / `PeerHandler::new` that the closed-loop model does not carry. -/
+theorem T9_whole_client_manager_never_panics_partial (T : Torrent) (sha1 : Bytes → Bytes) (S : Sys) (h : SysReach T sha1 S)
+    (a : Nat) (d : Option (Bytes × Bytes)) (inp : HIn) (t' : HState) (outs : List HOut) (e : Option Bool)
+    (hal : (S.tasks a).alive = true)
+    (hh : hstep sha1 (diskOf d) (S.tasks a) inp = some (t', outs, e))
+    (c : Cmd) (hc : c ∈ cmdsOf outs) (chosen : Option Nat) (bits : Pieces) (ev : Ev) (hev : evOfCmd a chosen bits c = some ev)
+    (hlen : ∀ p, findPeer S.m a = some p →
+      (∀ i, c = .recvHave i → i < p.pieces.length) ∧ (∀ bs, c = .recvBitfield bs → bits.length = p.pieces.length)) :
+    ∀ why, mstep S.m ev ≠ .panic why := by
+  obtain ⟨p, hp, hrx, _, hidx⟩ := allLinked_reach T sha1 S h a hal
+  have hen : EnabledW S.m ev := by
+    cases c with
+    | recvChoke => cases hev; exact ⟨p, hp⟩
+    | recvUnchoke => cases hev; exact ⟨p, hp⟩
+    | recvInterested => cases hev; exact ⟨p, hp⟩
+    | recvNotInterested => cases hev; exact ⟨p, hp⟩
+    | recvHave i => cases hev; exact ⟨p, hp, (hlen p hp).1 i rfl⟩
+    | recvBitfield bs => cases hev; exact ⟨p, hp, (hlen p hp).2 bs rfl⟩
+    | pieceDone =>
+      cases hev
+      obtain ⟨_, p', y, hp', _, hpi⟩ := Rdest.Props.C01.T6_piece_done_only_while_assigned T sha1 S h a d inp t' outs e hh hc
+      exact ⟨p', y, hp', hpi⟩
+    | pieceCancel =>
+      cases hev
+      obtain ⟨rx, hprx⟩ := pieceCancel_has_rx sha1 (diskOf d) (S.tasks a) inp t' outs e hh hc
+      rw [hprx] at hrx
+      exact ⟨p, rx.index, hp, hidx rx.index hrx.symm⟩
+    | init pid => cases hev
+    | recvRequest idx => cases hev
+  intro why hpanic
+  obtain ⟨s', r, hok, _⟩ := step_inv_w S.m (T6_whole_client_invariant T sha1 S h) ev hen
+  rw [hok] at hpanic; cases hpanic
+
 /-- Non-vacuity (test): a reachable state of the whole client with a `Reserved` piece — one connection: handshake,
     `Interested`, `Unchoke` answered with a request for piece 0. -/
 example : ∃ S, SysReach ⟨[[7]], fun _ => 1⟩ id S ∧ S.m.statuses[0]? = some (.reserved 1) := by
@@ -161,6 +217,22 @@ example : ∃ S, SysReach ⟨[[7]], fun _ => 1⟩ id S ∧ S.m.statuses[0]? = so
   have r4 := SysReach.step _ _ r3 (SysStep.own _ 0 none (.frame .unchoke (.req { index := 0, length := 1, hash := [7] } true)) _ _ _
     ⟨_, _, rfl, (by show ∃ chosen r, mstep _ _ = _ ∧ _ = _; exact ⟨some 0, _, rfl, rfl⟩), rfl⟩)
   exact ⟨_, r4, by decide⟩
+
+/-- Non-vacuity (test) for T9: in that state the live task of connection 0, told by broadcast that piece 0 is owned,
+    sends `PieceCancel` — a command whose handling would panic without an assignment on record. -/
+example : ∃ (S : Sys) (t' : HState) (outs : List HOut), SysReach ⟨[[7]], fun _ => 1⟩ id S ∧ (S.tasks 0).alive = true ∧
+    hstep id (diskOf none) (S.tasks 0) (.bcHave 0 .ignore) = some (t', outs, none) ∧ Cmd.pieceCancel ∈ cmdsOf outs := by
+  let T : Torrent := ⟨[[7]], fun _ => 1⟩
+  let t0 : HState := { infoHash := [1], ownId := [2], piecesNum := 1 }
+  have r0 : SysReach T id _ := SysReach.init 1 (fun _ => { t0 with alive := false }) (fun _ => rfl)
+  have r1 := SysReach.step _ _ r0 (SysStep.connect _ 0 t0 _ rfl ⟨rfl, rfl, rfl⟩ rfl)
+  have r2 := SysReach.step _ _ r1 (SysStep.own _ 0 none (.frame (.handshake [1] [3]) (.bitfield [0])) _ _ _
+    ⟨_, _, rfl, (by show _ = _; exact rfl), rfl⟩)
+  have r3 := SysReach.step _ _ r2 (SysStep.own _ 0 none (.frame .interested .none) _ _ _
+    ⟨_, _, rfl, (by show mstep _ _ = _; exact rfl), rfl⟩)
+  have r4 := SysReach.step _ _ r3 (SysStep.own _ 0 none (.frame .unchoke (.req { index := 0, length := 1, hash := [7] } true)) _ _ _
+    ⟨_, _, rfl, (by show ∃ chosen r, mstep _ _ = _ ∧ _ = _; exact ⟨some 0, _, rfl, rfl⟩), rfl⟩)
+  exact ⟨_, _, _, r4, rfl, rfl, by decide⟩
 
 end Whole
 
